@@ -25,6 +25,23 @@ def exc_matches(name, handler, extra):
     return False
 
 
+_hq = {}
+
+
+def has_quant(t):
+    i = t.get_id()
+    r = _hq.get(i)
+    if r is None:
+        if z3.is_quantifier(t):
+            r = True
+        elif z3.is_app(t):
+            r = any(has_quant(c) for c in t.children())
+        else:
+            r = False
+        _hq[i] = r
+    return r
+
+
 class FunctionEngine(CallsMixin, Engine):
     pending_raises = None
     spec_env = {}
@@ -114,7 +131,7 @@ class FunctionEngine(CallsMixin, Engine):
         if f == 'subset':
             x, y = self.eval(a[0], st), self.eval(a[1], st)
             e = z3.Const(fresh_name('e'), sort_of(x.ty.args[0]))
-            return V(BOOL, z3.ForAll([e], z3.Implies(z3.Select(self.load(x, st), e), z3.Select(self.load(y, st), e))))
+            return V(BOOL, z3.ForAll([e], z3.Implies(T.Sel(self.load(x, st), e), T.Sel(self.load(y, st), e))))
         if f == 'count':
             s, x = self.eval(a[0], st), self.eval(a[1], st)
             ln, arr = self.seq_parts(s, st)
@@ -191,12 +208,12 @@ class FunctionEngine(CallsMixin, Engine):
                 if s.ty.kind == 'Set':
                     c = z3.Const(fresh_name(name), sort_of(s.ty.args[0]))
                     bvs.append(c)
-                    doms.append(z3.Select(self.load(s, st), c))
+                    doms.append(T.Sel(self.load(s, st), c))
                     st.env[name] = self.spec_env[name] = self.unbox(s.ty.args[0], c, st)
                 elif s.ty.kind == 'Dict':
                     c = z3.Const(fresh_name(name), sort_of(s.ty.args[0]))
                     bvs.append(c)
-                    doms.append(z3.Select(T.dict_dom(s.ty, self.load(s, st)), c))
+                    doms.append(T.Sel(T.dict_dom(s.ty, self.load(s, st)), c))
                     st.env[name] = self.spec_env[name] = self.unbox(s.ty.args[0], c, st)
                 else:
                     raise Unsupported('quantifier domain')
@@ -204,34 +221,42 @@ class FunctionEngine(CallsMixin, Engine):
                 raise Unsupported('quantifier form')
             st.guards.append(And(*doms))
             try:
-                p = self.truth(self.eval(body, st), st)
+                bv = self.eval(body, st)
+                p = self.truth(bv, st)
             finally:
                 st.guards.pop()
         finally:
             st.env = saved
             self.spec_env = saved_spec
         d = And(*doms)
+        # flatten directly nested quantifiers of the same kind (gives the solver usable multi-patterns)
+        if isinstance(bv.py, tuple) and bv.py and bv.py[0] == f:
+            _, ibvs, idom, ip = bv.py
+            bvs = bvs + ibvs
+            d = And(d, idom)
+            p = ip
         if f == 'forall':
-            return V(BOOL, z3.ForAll(bvs, z3.Implies(d, p)))
-        return V(BOOL, z3.Exists(bvs, z3.And(d, p)))
+            return V(BOOL, z3.ForAll(bvs, z3.Implies(d, p)), py=('forall', bvs, d, p))
+        return V(BOOL, z3.Exists(bvs, z3.And(d, p)), py=('exists', bvs, d, p))
 
     # ------------------------------------------------------------------ solver helpers (path pruning)
     def feasible(self, st, cond=None):
+        """Path pruning. Quantified facts are left out (over-approximation: a path is only dropped when its
+        quantifier-free part is already contradictory)."""
         if not self.prune:
             return True
         s = z3.Solver()
-        s.set('timeout', 2000)
-        for a in self.axioms_for_prune():
-            s.add(a)
+        s.set('timeout', 500)
         for p in st.pc:
-            s.add(p)
+            if not has_quant(p):
+                s.add(p)
         if cond is not None:
             s.add(cond)
         return s.check() != z3.unsat
 
-    def valid(self, st, cond):
+    def valid(self, st, cond, timeout=2000):
         s = z3.Solver()
-        s.set('timeout', 2000)
+        s.set('timeout', timeout)
         for p in st.context():
             s.add(p)
         s.add(z3.Not(cond))
@@ -301,7 +326,7 @@ class FunctionEngine(CallsMixin, Engine):
             i = z3.Int(fresh_name('i'))
             it = m.item(i - ln, st)
             itc = self.coerce(it, y.ty.args[0], st)
-            self.store(y, T.seq_mk(y.ty, ln + m.n, z3.Lambda([i], z3.If(i < ln, z3.Select(arr, i), self.as_term(itc, st)))), st)
+            self.store(y, T.seq_mk(y.ty, ln + m.n, z3.Lambda([i], z3.If(i < ln, T.Sel(arr, i), self.as_term(itc, st)))), st)
             return self.with_raises(st, [(st, NORMAL)])
         if isinstance(e, ast.Call) and self.src(e.func) in ('print', 'log.debug', 'log.info', 'warnings.warn'):
             return [(st, NORMAL)]
@@ -404,7 +429,7 @@ class FunctionEngine(CallsMixin, Engine):
             ln, arr = self.seq_parts(cur, st)
             ol, oa = self.seq_parts(o, st)
             i = z3.Int(fresh_name('i'))
-            self.store(cur, T.seq_mk(cur.ty, ln + ol, z3.Lambda([i], z3.If(i < ln, z3.Select(arr, i), z3.Select(oa, i - ln)))), st)
+            self.store(cur, T.seq_mk(cur.ty, ln + ol, z3.Lambda([i], z3.If(i < ln, T.Sel(arr, i), T.Sel(oa, i - ln)))), st)
             if isinstance(tgt, ast.Name):
                 st.env[tgt.id] = cur
             return self.with_raises(st, [(st, NORMAL)])
@@ -429,7 +454,7 @@ class FunctionEngine(CallsMixin, Engine):
                     key = self.coerce(self.eval(tgt.slice, st), obj.ty.args[0], st)
                     d = self.load(obj, st)
                     kt = self.as_term(key, st)
-                    self.total(st, z3.Select(T.dict_dom(obj.ty, d), kt), f'key present: {self.src(tgt)}', tgt)
+                    self.total(st, T.Sel(T.dict_dom(obj.ty, d), kt), f'key present: {self.src(tgt)}', tgt)
                     self.store(obj, T.dict_mk(obj.ty, z3.Store(T.dict_dom(obj.ty, d), kt, z3.BoolVal(False)),
                                               T.dict_val(obj.ty, d)), st)
                     continue
@@ -712,21 +737,21 @@ class FunctionEngine(CallsMixin, Engine):
         self.havoc_loop(st, s.body, spec, extra_names=self.target_names(s.target))
         P = z3.Const(fresh_name('P'), sort_of(pty))
         e = z3.Const(fresh_name('e'), sort_of(et))
-        st.assume(z3.ForAll([e], z3.Implies(z3.Select(P, e), z3.Select(dom0, e))))
+        st.assume(z3.ForAll([e], z3.Implies(T.Sel(P, e), T.Sel(dom0, e))))
         self.assume_invs(st, spec, {pname: V(pty, P)}, pre)
         out = []
         a = st.copy()
         x = z3.Const(fresh_name('x'), sort_of(et))
-        a.assume(z3.And(z3.Select(dom0, x), z3.Not(z3.Select(P, x))))
+        a.assume(z3.And(T.Sel(dom0, x), z3.Not(T.Sel(P, x))))
         a.trace.append(f'L{s.lineno - self.line0}iter')
         if self.feasible(a):
             xv = self.unbox(et, x, a)
             if mode in ('set', 'dictkeys'):
                 item = xv
             elif mode == 'dictitems':
-                item = self.mk_tuple([xv, self.unbox(sv.ty.args[1], z3.Select(T.dict_val(sv.ty, d0), x), a)], a)
+                item = self.mk_tuple([xv, self.unbox(sv.ty.args[1], T.Sel(T.dict_val(sv.ty, d0), x), a)], a)
             else:
-                item = self.unbox(sv.ty.args[1], z3.Select(T.dict_val(sv.ty, d0), x), a)
+                item = self.unbox(sv.ty.args[1], T.Sel(T.dict_val(sv.ty, d0), x), a)
             self.bind_target(s.target, item, a)
             for (cur, o) in self.exec_block(s.body, a):
                 if o.kind in ('normal', 'continue'):
@@ -736,7 +761,7 @@ class FunctionEngine(CallsMixin, Engine):
                 else:
                     out.append((cur, o))
         b = st
-        b.assume(z3.ForAll([e], z3.Select(P, e) == z3.Select(dom0, e)))
+        b.assume(z3.ForAll([e], T.Sel(P, e) == T.Sel(dom0, e)))
         b.trace.append(f'L{s.lineno - self.line0}exit')
         if self.feasible(b):
             out.append((b, NORMAL))
